@@ -1329,6 +1329,15 @@ class AnyPayloadDecoder(AbstractSimplePayloadDecoder):
             if LOG:
                 LOG('decoding as untagged ANY, header substrate %s' % debug.hexdump(chunk))
 
+        # remember what the caller asked for: a nested call made on behalf of
+        # an enclosing ANY collects raw octets, a top-level call builds a value
+        callerSubstrateFun = substrateFun
+
+        if asn1Spec is None or asn1Spec.__class__ is tagmap.TagMap:
+            valueSpec = None
+        else:
+            valueSpec = asn1Spec
+
         # Any components do not inherit initial tag
         asn1Spec = self.protoComponent
 
@@ -1365,11 +1374,15 @@ class AnyPayloadDecoder(AbstractSimplePayloadDecoder):
 
             chunk += component
 
-        if substrateFun:
-            yield chunk  # TODO: Weird
+        if not isTagged:
+            # the captured header belongs to the value, so does its end-of-octets
+            chunk += EOO_SENTINEL
+
+        if callerSubstrateFun:
+            yield chunk
 
         else:
-            yield self._createComponent(asn1Spec, tagSet, chunk, **options)
+            yield self._createComponent(valueSpec, tagSet, chunk, **options)
 
 
 # character string types
